@@ -2,8 +2,9 @@
 """usage: keep_seed.py <PROP> <A|B> <caught|missed> "<which check/clause or why missed>"  — files a confirmed seeded change under /verif/seeded/"""
 import json, os, shutil, sys
 pid, v, status, note = sys.argv[1:5]
+as_ = sys.argv[5] if len(sys.argv) > 5 else v      # round 2 deliveries (A, B) are filed as C, D
 src = f"/tmp/wt-{pid}-out/{v}"
-dst = f"/verif/seeded/{pid}-{v}"
+dst = f"/verif/seeded/{pid}-{as_}"
 os.makedirs(dst, exist_ok=True)
 for f in ("patch.diff", "demo.py"):
     shutil.copy(os.path.join(src, f), os.path.join(dst, f))
